@@ -1,2 +1,172 @@
-//! Harnesses for property C10 (see /verif/properties.jsonl).
+//! Harnesses for property C10 (see /verif/properties.jsonl):
+//! poll exponents stay within configured and requested bounds, the next poll is scheduled between
+//! 1.01 and 1.05 times the interval, the clock filter's desire stays within the configured limits.
+use crate::common::*;
 use crate::stubs;
+use ntp_proto::verif::algorithm::kalman::source as kh;
+use ntp_proto::verif::source as sh;
+use ntp_proto::verif::time_types as th;
+use ntp_proto::*;
+use std::time::Duration;
+
+fn cfg(min: i8, max: i8) -> SourceConfig {
+    SourceConfig {
+        poll_interval_limits: PollIntervalLimits { min: poll(min), max: poll(max) },
+        initial_poll_interval: poll(min),
+    }
+}
+
+/// Oracle for the timer: 1.01 * 2^e s - slack <= d <= 1.05 * 2^e s + slack (integer nanoseconds)
+fn timer_in_window(d: Duration, e: u32, slack_ns: u128) -> bool {
+    let ns = d.as_nanos();
+    let lo = (1_010_000_000u128 << e) - slack_ns;
+    let hi = (1_050_000_000u128 << e) + slack_ns;
+    lo <= ns && ns <= hi
+}
+
+/// One `handle_timer` from an arbitrary state of the poll-related fields.
+/// `remote_lo..=remote_hi`: range of the server-requested minimum (0..=17 = what RATE answers can
+/// produce within the configured limits; 18..=127 = what an NTPv5 server may ask for).
+fn c10_timer_body(version_sel: u8, remote_lo: i8, remote_hi: i8) {
+    stubs::symbolic_clock();
+    stubs::symbolic_rng();
+    let min: i8 = kani::any();
+    let max: i8 = kani::any();
+    kani::assume(0 <= min && min <= max && max <= 17);
+    let desire: i8 = kani::any();
+    kani::assume(min <= desire && desire <= max);
+    let remote_min: i8 = kani::any();
+    kani::assume(remote_lo <= remote_min && remote_min <= remote_hi);
+    let last: i8 = kani::any();
+    let reach: u8 = kani::any();
+    let tries: usize = kani::any();
+    kani::assume(tries <= 4);
+    let tries_left: u8 = kani::any();
+
+    let version = version_from(version_sel, tries_left);
+    let mut src = new_source(version, cfg(min, max), poll(desire), None);
+    sh::set_remote_min_poll_interval(&mut src, poll(remote_min));
+    sh::set_last_poll_interval(&mut src, poll(last));
+    sh::set_reach(&mut src, reach);
+    sh::set_tries(&mut src, tries);
+
+    let (acts, n) = collect_actions(src.handle_timer());
+
+    if reach == 0 && tries >= 3 {
+        assert!(n == 1 && matches!(acts[0], Some(NtpSourceAction::Reset)), "gives up: no poll is sent");
+        return;
+    }
+    assert!(n == 2, "send + timer");
+    let p = match &acts[0] {
+        Some(NtpSourceAction::Send(p)) => p,
+        _ => {
+            assert!(false, "first action is Send");
+            return;
+        }
+    };
+    let d = match &acts[1] {
+        Some(NtpSourceAction::SetTimer(d)) => *d,
+        _ => {
+            assert!(false, "second action is SetTimer");
+            return;
+        }
+    };
+    // poll exponent on the wire
+    let sent = p[2] as i8;
+    let want = core::cmp::max(desire, remote_min);
+    assert!(sent == want, "poll exponent = max(filter desire, server-requested minimum)");
+    assert!(sent >= min, "poll exponent not below the configured minimum");
+    assert!(sent <= core::cmp::max(max, remote_min), "poll exponent not above max(configured maximum, server request)");
+    assert!(th::poll_raw(sh::state(&src).last_poll_interval) == sent, "the exponent used is remembered");
+    // schedule
+    if sent <= 17 {
+        assert!(timer_in_window(d, sent as u32, 1), "next poll between 1.01 and 1.05 intervals (+-1 ns)");
+    } else {
+        // beyond the configurable range the implementation saturates the *timer* at 2^31 s
+        // (68 years); stated outside the claim, only the lower bound is checked here
+        let e = core::cmp::min(sent as u32, 31);
+        assert!(d.as_nanos() >= (1_010_000_000u128 << e) - 1024, "next poll not earlier than 1.01 * min(interval, 2^31 s)");
+    }
+    kani::cover!(sent == remote_min && remote_min > desire, "server request dominates");
+    kani::cover!(sent == desire && desire > remote_min, "filter desire dominates");
+    kani::cover!(sent <= 17 && d.as_nanos() == (1_010_000_000u128 << (sent as u32)), "lower jitter bound reachable");
+    kani::cover!(sent <= 17 && d.as_nanos() > (1_049_000_000u128 << (sent as u32)), "upper jitter range reachable");
+}
+
+harness! {
+    #[kani::unwind(12)]
+    #[kani::stub(std::collections::HashMap::insert, crate::stubs::hashmap_insert_noop)]
+    fn c10_timer_v4() {
+        c10_timer_body(0, 0, 17);
+    }
+}
+
+harness! {
+    #[kani::unwind(12)]
+    #[kani::stub(std::collections::HashMap::insert, crate::stubs::hashmap_insert_noop)]
+    fn c10_timer_v5() {
+        c10_timer_body(3, 0, 17);
+    }
+}
+
+harness! {
+    #[kani::unwind(12)]
+    #[kani::stub(std::collections::HashMap::insert, crate::stubs::hashmap_insert_noop)]
+    fn c10_timer_upgrade() {
+        let sel: u8 = kani::any();
+        kani::assume(sel == 1 || sel == 2);
+        c10_timer_body(sel, 0, 17);
+    }
+}
+
+harness! {
+    #[kani::unwind(12)]
+    #[kani::stub(std::collections::HashMap::insert, crate::stubs::hashmap_insert_noop)]
+    fn c10_timer_server_requested() {
+        c10_timer_body(3, 18, 127);
+    }
+}
+
+// ------------------------------------------------------------------------------------------
+// c10_filter: one update of the clock filter's desired interval.
+harness! {
+    fn c10_filter() {
+        let min: i8 = kani::any();
+        let max: i8 = kani::any();
+        kani::assume(0 <= min && min <= max && max <= 17);
+        let desire: i8 = kani::any();
+        kani::assume(min <= desire && desire <= max);
+        let score: i32 = kani::any();
+        let p: f64 = kani::any();
+        let weight: f64 = kani::any();
+        let period: f64 = kani::any();
+        let hysteresis: i32 = kani::any();
+        let low_w: f64 = kani::any();
+        let high_w: f64 = kani::any();
+        let step_thr: f64 = kani::any();
+        // poll_score stays within the hysteresis band between calls (it is reset to 0 whenever it
+        // reaches it); this keeps `poll_score +- 1` away from the i32 limits (dev-profile overflow)
+        kani::assume(hysteresis >= 1 && hysteresis < i32::MAX);
+        kani::assume(-hysteresis < score && score < hysteresis);
+
+        let mut algo = ntp_proto::AlgorithmConfig::default();
+        algo.poll_interval_hysteresis = hysteresis;
+        algo.poll_interval_low_weight = low_w;
+        algo.poll_interval_high_weight = high_w;
+        algo.poll_interval_step_threshold = step_thr;
+        let sc = cfg(min, max);
+
+        let (d2, s2) = kh::update_desired_poll_hook(poll(desire), score, &sc, &algo, p, weight, period);
+        let d2 = th::poll_raw(d2);
+
+        assert!(min <= d2 && d2 <= max, "the filter's desired interval stays within the configured limits");
+        assert!((d2 as i16 - desire as i16).abs() <= 1 || d2 == min, "one step at a time, or back to the minimum");
+        assert!(-hysteresis < s2 && s2 < hysteresis, "poll score stays inside the hysteresis band (invariant)");
+        kani::cover!(d2 == desire + 1, "interval increased");
+        kani::cover!(d2 == desire - 1, "interval decreased");
+        kani::cover!(d2 == min && desire > min + 1, "reset to the minimum after a step");
+        kani::cover!(d2 == max && desire == max && s2 == 0 && score != 0, "clamped at the maximum");
+        kani::cover!(d2 == min && desire == min && s2 == 0 && score > 0, "clamped at the minimum");
+        kani::cover!(p.is_nan() || weight.is_nan() || period.is_nan(), "NaN inputs covered");
+    }
+}
